@@ -4,9 +4,17 @@ from check import Prop
 class C16(Prop):
     pid = "C16"
     check_mod = "C16"
-    drivers = [dict(pkg="internal/core", test="TestVerifPathSM", timeout=600)]
+    drivers = [dict(pkg="internal/core", test="TestVerifPathSM", timeout=900)]
     n_quick, n_thorough, shard = 300, 6000, 100
-    ready = False
+    ready = True
+    level = "proof"
+    rule = 'histories = scripted witnesses (C19 finding, override, maxReaders, on-demand cycles) + random operation sequences (5-40 ops: Describe, AddPublisher, RemovePublisher, AddReader, RemoveReader, StaticReady/NotReady, TimerFire of each of the 4 timers, ReloadConf, Close, ops after Close) over random confs (publisher / runOnDemand / static / static on-demand, overridePublisher, maxReaders -1..3, every hook on/off), run on a real core.path; per operation the observed events (parent callbacks, Close() calls, hook and source log lines, answers) are compared with the model inside Coq; non-trivial = at least one stream was created; distinct = distinct (conf, history, observations)'
+    trusted_base = ['Coq 8.16.1 kernel + VM (vm_compute for cases and for the _refuted witness)', 'in-package Go driver harness/inpkg/internal/core/zz_verif_pathsm_test.go (real core.path, recording parent, fake publishers/readers; timers fired through Stop()/Reset(0))', 'model Model/PathSM.v hand-written (transliteration of internal/core/path.go handlers, internal/hooks closures, staticsources.Handler start/stop protocol), tied by correspondence on every run']
+    assumptions = ['the path goroutine handles one message at a time (single select loop), so its behaviour is a step function', 'hot reload (doReloadConf) changes only fields outside the model (pathConfCanBeUpdated); alwaysAvailable, redirect, fallback, recording are not modelled and not generated', 'conf.Path.validate: runOnDemand only with source: publisher (conf_ok)', 'static source instances alternate SetReady / SetNotReady while their handler runs (protocol of internal/staticsources/handler.go, played by the driver)']
+    manifest = dict(
+        text="Coq theorems over the path event loop model (all operation histories, all confs): a single optional source, stream exists iff a publisher is attached (publisher paths), a second publisher is rejected unchanged when overridePublisher is off, and with override the old publisher is closed and the old stream torn down before the new stream is created. The model is tied to internal/core/path.go by running a real path on generated histories and comparing every step's events inside Coq; the property is also re-evaluated on the observed events alone.",
+        note="Assumed: single-goroutine loop semantics, hot reload touching only un-modelled fields. The stale sub-stream write guard (internal/stream) is C17's model, not covered here.",
+        technique="Coq proof: state invariant (finite part checked per operation by case enumeration, list part compositionally) lifted to all histories by induction (Lib/Trace.v); correspondence by vm_compute over driver cases")
 
 
 PROP = C16()
